@@ -128,7 +128,7 @@ pub fn from_stfu8(encoded: &str) -> Result<OsString, DecodeError> {
 
 const SPECIAL_CHARS: [char; 25] = [
     '|', '&', ';', '<', '>', '(', ')', '{', '}', '$', '`', '\\', '\'', '"', ' ', '\t', '*', '?',
-    '+', '[', ']', '#', '˜', '=', '%',
+    '+', '[', ']', '#', '~', '=', '%',
 ];
 
 /// Escapes special characters in a string, so that it will retain its literal meaning when used as
